@@ -1,7 +1,7 @@
 """C18 -- capacity figures: min_block_size enumeration on the real lists/pools vs the carving model and the generated formulas,
 counters compared in lock-step on pool/collection/stack histories."""
 import subprocess
-from vlib import build, runner
+from vlib import proc, build, runner
 from checks import poolrun
 
 
@@ -54,7 +54,7 @@ def run(ctx):
         lines.append('S %d %d' % (rng.choice(list(range(1, 40)) + [64, 100, 255, 256]), rng.randint(600, 200000)))
     for _ in range(3000 if thorough else 400):
         lines.append('P %d %d %d' % (rng.randint(0, 2), rng.choice(list(range(1, 70)) + [128, 512]), rng.choice([1, 2, 25, 254, 255, 256, 510, 1000, rng.randint(1, 2000)])))
-    out = subprocess.run([exe], input='\n'.join(lines) + '\n', stdout=subprocess.PIPE, text=True)
+    out = proc.run([exe], input='\n'.join(lines) + '\n', timeout=600)
     if out.returncode != 0:
         ctx.tie_broken.append('min_block_size harness exit %d' % out.returncode)
     enum_total = 0; enum_div = 0
